@@ -194,6 +194,15 @@ CHECKS["C27"] = {
     "design_ref": "3/C27",
 }
 
+CHECKS["C28"] = {
+    "level": "fault_enumeration",
+    "crash_is_violation": True,
+    "technique": "runtime monitoring in virtual time: gateway misbehaviours enumerated per API call; return-within-bound oracle and goroutine-leak inspection of the bubble's goroutine dump",
+    "level_text": "About 50 gateway behaviours (silence/disconnect at each step, every unexpected packet type, garbage) x every API call x keep-alive on/off, plus all pairs of concurrent calls under four behaviours; every call runs in its own goroutine and must have returned after twice the documented bound of virtual time; after Close the goroutine dump of the bubble must contain no client goroutine.",
+    "level_note": "a hang is detected at 2x the bound (exact budgets are C17/C19); leak detection relies on the 'synctest bubble' tag of runtime.Stack",
+    "design_ref": "3/C28",
+}
+
 CHECKS["C34"] = {
     "level": "fault_enumeration",
     "exhaustive": True,
